@@ -719,4 +719,127 @@ theorem SoundS.gfor_shape {ns ns' vs vs' b b'} (hn : ns.map TName.name = ns'.map
     · exact h
 end loops
 
+/-! ### references of the output -/
+
+theorem refsList_append (x : DName) : ∀ (xs ys : List Stmt), Stmt.refsList x (xs ++ ys) = (Stmt.refsList x xs || Stmt.refsList x ys)
+  | [], _ => by simp [Stmt.refsList]
+  | s :: xs, ys => by simp [Stmt.refsList, refsList_append x xs ys, Bool.or_assoc]
+
+section refs
+variable {flag : String} {x : DName} (h1 : x ≠ .ref flag) (h2 : x ≠ .wat flag)
+include h1 h2
+
+theorem refs_setFlag : Stmt.refsList x [.assign [.var flag] [.true]] = false := by
+  simp [Stmt.refsList, Stmt.refs, Expr.refsTList, Expr.refsT, Expr.refsList, Expr.refs, h1, h2]
+
+mutual
+  theorem ContConvS.refs_false : ∀ {s s' : Stmt}, ContConvS flag s s' → s.refs x = false → s'.refs x = false
+    | _, _, .other _ _, h => h
+    | _, _, .doBlock hb, h => by simp only [Stmt.refs] at h ⊢; exact ContConv.refs_false hb h
+    | _, _, .ifs hbrs .none, h => by simp only [Stmt.refs] at h ⊢; exact ContConvBrs.refs_false hbrs h
+    | _, _, .ifs hbrs (.some hb), h => by
+      simp only [Stmt.refs, Bool.or_eq_false_iff] at h ⊢
+      exact ⟨ContConvBrs.refs_false hbrs h.1, ContConv.refs_false hb h.2⟩
+  theorem ContConvSs.refs_false : ∀ {ss ss' : List Stmt}, ContConvSs flag ss ss' → Stmt.refsList x ss = false →
+      Stmt.refsList x ss' = false
+    | _, _, .nil, h => h
+    | _, _, .cons hs hrest, h => by
+      simp only [Stmt.refsList, Bool.or_eq_false_iff] at h ⊢
+      exact ⟨ContConvS.refs_false hs h.1, ContConvSs.refs_false hrest h.2⟩
+  theorem ContConvBrs.refs_false : ∀ {bs bs' : List (Expr × Block)}, ContConvBrs flag bs bs' →
+      Stmt.refsBranches x bs = false → Stmt.refsBranches x bs' = false
+    | _, _, .nil, h => h
+    | _, _, .cons hb hrest, h => by
+      simp only [Stmt.refsBranches, Bool.or_eq_false_iff] at h ⊢
+      exact ⟨⟨h.1.1, ContConv.refs_false hb h.1.2⟩, ContConvBrs.refs_false hrest h.2⟩
+  theorem ContConv.refs_false : ∀ {b b' : Block}, ContConv flag b b' → b.refs x = false → b'.refs x = false
+    | _, _, .cont hss, h => by
+      simp only [Block.refs, Last.refs, Bool.or_false] at h ⊢
+      rw [refsList_append, ContConvSs.refs_false hss h, refs_setFlag h1 h2]; rfl
+    | _, _, @ContConv.other _ ss ss' l _ hss, h => by
+      cases l with
+      | none => simp only [Block.refs] at h ⊢; exact ContConvSs.refs_false hss h
+      | some l0 =>
+        simp only [Block.refs, Bool.or_eq_false_iff] at h ⊢
+        exact ⟨ContConvSs.refs_false hss h.1, h.2⟩
+end
+
+theorem refs_contInner {B' : Block} (h : B'.refs x = false) : (contInner flag B').refs x = false := by
+  cases B' with
+  | mk ss l =>
+    cases l with
+    | none =>
+      simp only [contInner, Block.refs] at h ⊢
+      rw [refsList_append, h, refs_setFlag h1 h2]; rfl
+    | some l0 => exact h
+
+theorem refs_contWrap {B' : Block} (h : B'.refs x = false) : (contWrap flag B').refs x = false := by
+  have hi := refs_contInner h1 h2 h
+  simp [contWrap, Block.refs, Stmt.refsList, Stmt.refs, hi, watNames, Expr.refsList, Expr.refs, Stmt.refsBranches,
+    Last.refs, h1, h2]
+end refs
+
+theorem noRef_contWrap {flag : String} {D : List DName} {B B' : Block} (hcv : ContConv flag B B') (hn : NoRefB D B)
+    (h1 : DName.ref flag ∉ D) (h2 : DName.wat flag ∉ D) : NoRefB D (contWrap flag B') := fun x hx =>
+  have e1 : x ≠ .ref flag := fun e => h1 (e ▸ hx)
+  have e2 : x ≠ .wat flag := fun e => h2 (e ▸ hx)
+  refs_contWrap e1 e2 (ContConv.refs_false e1 e2 hcv (hn x hx))
+
+/-! ### the links -/
+
+section links
+variable {flag : String}
+
+/-- **`remove_continue` on `while`** -/
+theorem LkS.removeContinueWhile {c : Expr} {B B' : Block} (hcv : ContConv flag B B')
+    (hrf : B.refs (.ref flag) = false) (hwf : B.refs (.wat flag) = false) (hW : flag ∉ cx.W)
+    (hdok : ∀ D, cx.Dok D → DName.ref flag ∉ D) :
+    LkS cx (.while_ c B) (.while_ c (contWrap flag B')) := by
+  intro D hw hn
+  have hh := NoRefS.while_.mp hn
+  have hD : DName.wat flag ∉ D := fun hm => hW (hw.wat _ hm)
+  exact ⟨.genS fun Q hq => SoundS.while_shape (reflE hq c D hh.1) (contWrap_body hq hcv hh.2 hrf hwf hD),
+    NoRefS.while_.mpr ⟨hh.1, noRef_contWrap hcv hh.2 (hdok D hw.ok) hD⟩⟩
+
+/-- **`remove_continue` on numeric `for`** -/
+theorem LkS.removeContinueNfor {n : TName} {a b : Expr} {st : Option Expr} {B B' : Block} (hcv : ContConv flag B B')
+    (hrf : B.refs (.ref flag) = false) (hwf : B.refs (.wat flag) = false) (hW : flag ∉ cx.W)
+    (hdok : ∀ D, cx.Dok D → DName.ref flag ∉ D) :
+    LkS cx (.nfor n a b st B) (.nfor n a b st (contWrap flag B')) := by
+  intro D hw hn
+  have hD : DName.wat flag ∉ D := fun hm => hW (hw.wat _ hm)
+  obtain ⟨nm, ty⟩ := n
+  cases st with
+  | none =>
+    have hh := NoRefS.nforNone.mp hn
+    exact ⟨.genS fun Q hq => SoundS.nfor_shape rfl hh.1 (reflE hq a D hh.2.1) (reflE hq b D hh.2.2.1)
+        (show OptRel (SoundE Q cx D) none none from trivial) (contWrap_body hq hcv hh.2.2.2 hrf hwf hD),
+      NoRefS.nforNone.mpr ⟨hh.1, hh.2.1, hh.2.2.1, noRef_contWrap hcv hh.2.2.2 (hdok D hw.ok) hD⟩⟩
+  | some s0 =>
+    have hh := NoRefS.nforSome.mp hn
+    exact ⟨.genS fun Q hq => SoundS.nfor_shape rfl hh.1 (reflE hq a D hh.2.1) (reflE hq b D hh.2.2.1)
+        (show OptRel (SoundE Q cx D) (some s0) (some s0) from reflE hq s0 D hh.2.2.2.1)
+        (contWrap_body hq hcv hh.2.2.2.2 hrf hwf hD),
+      NoRefS.nforSome.mpr ⟨hh.1, hh.2.1, hh.2.2.1, hh.2.2.2.1, noRef_contWrap hcv hh.2.2.2.2 (hdok D hw.ok) hD⟩⟩
+
+/-- **`remove_continue` on generic `for`** -/
+theorem LkS.removeContinueGfor {ns : List TName} {vs : List Expr} {B B' : Block} (hcv : ContConv flag B B')
+    (hrf : B.refs (.ref flag) = false) (hwf : B.refs (.wat flag) = false) (hW : flag ∉ cx.W)
+    (hdok : ∀ D, cx.Dok D → DName.ref flag ∉ D) :
+    LkS cx (.gfor ns vs B) (.gfor ns vs (contWrap flag B')) := by
+  intro D hw hn
+  have hD : DName.wat flag ∉ D := fun hm => hW (hw.wat _ hm)
+  have hh := NoRefS.gfor.mp hn
+  exact ⟨.genS fun Q hq => SoundS.gfor_shape rfl (NoWat.names hh.1) (reflEs hq vs D hh.2.1)
+      (contWrap_body hq hcv hh.2.2 hrf hwf hD),
+    NoRefS.gfor.mpr ⟨hh.1, hh.2.1, noRef_contWrap hcv hh.2.2 (hdok D hw.ok) hD⟩⟩
+end links
+
+-- non-vacuity of the syntax: `if c then continue end; emit(i)`
+example : ContConv "__f"
+    (.mk [.ifs [(.var "c", .mk [] (some .cont))] none, .callStmt (.call (.var "emit") none .tuple [.var "i"])] none)
+    (.mk [.ifs [(.var "c", .mk ([] ++ [.assign [.var "__f"] [.true]]) (some .brk))] none,
+          .callStmt (.call (.var "emit") none .tuple [.var "i"])] none) :=
+  .other (by simp) (.cons (.ifs (.cons (.cont .nil) .nil) .none) (.cons (.other _ rfl) .nil))
+
 end DarkluaModel.Sem.Heap
